@@ -185,7 +185,11 @@ pub fn configs(quick: bool) -> Vec<Config> {
 pub fn run(run: &mut Run) {
     crate::net::init_sleep_sites();
     let quick = run.quick();
-    let cfgs = configs(quick);
+    let mut cfgs = configs(quick);
+    // diagnostic: NUNMC_C07_ONLY=<substring of a configuration name> restricts the run (never set by MANIFEST commands)
+    if let Ok(only) = std::env::var("NUNMC_C07_ONLY") {
+        cfgs.retain(|c| c.name().contains(&only));
+    }
     // every configuration is explored by one thread, depth first, with a state cap: the explored
     // part is the same on every run (a time cap or a shared work stack would make it vary)
     let cap_override = crate::util::env_u64("NUNMC_C07_CAP", 0) as usize;
